@@ -93,6 +93,11 @@ def rule_forwarding(ctx, rid):
                     ctx.violated(rid, fi, '%s: option dropped' % label, 'option `%s` of %s is not passed on to %s(): the worker runs with its own default whatever the caller asked for'
                                  % (ent['param'], q.split('.')[-1], ent['callee']), node=e.node)
                     break
+                # a constant that merely spells out what the guards of the call have established about the option (`if issorted: ... else: f(issorted=False)`)
+                if v in (T.CONST_TRUE, T.CONST_FALSE) and any(a == P_(ent['param']) and pol is (v == T.CONST_TRUE) for a, pol in e.guards):
+                    continue
+                if v == T.CONST_NONE and any(a == T.mkcmp('is', P_(ent['param']), T.CONST_NONE) and pol is True for a, pol in e.guards):
+                    continue
                 if ent.get('level') == 'derived':
                     if not T.contains(v, P_(ent['param'])):
                         bad = True
